@@ -326,15 +326,16 @@ def run_sim(argv, files, chooser, capacity=65536, feeder=True, step_cap=K.STEP_C
 import re as _re
 
 _SCRATCH_RE = _re.compile(r"cutadapt-verif-src-\d+-\w+")
+_ADDR_RE = _re.compile(rb"0x[0-9a-f]{8,}")  # object addresses in --debug output
 
 
 def content_digest(res):
     h = hashlib.sha1()
     for p in sorted(res.files):
         h.update(p.encode() + b"\0" + res.files[p] + b"\0")
-    h.update(res.stdout)
+    h.update(_ADDR_RE.sub(b"0xX", res.stdout))
     # tracebacks name the private source copy, whose directory name contains pid and a random
     # suffix (constant length, so message sizes and hence schedules do not depend on it)
-    h.update(_SCRATCH_RE.sub("cutadapt-verif-src-X", res.stderr).encode())
+    h.update(_ADDR_RE.sub(b"0xX", _SCRATCH_RE.sub("cutadapt-verif-src-X", res.stderr).encode()))
     h.update(repr((res.outcome, res.exit)).encode())
     return h.hexdigest()
